@@ -45,7 +45,7 @@ inductive T (K : Type) where
 instance {K : Type} : Inhabited (T K) := ⟨T.nil⟩
 
 /-- evaluate the eight children once (closures would re-evaluate on every access) -/
-def memo {α : Type} (f : Fin 8 → α) : Fin 8 → α :=
+@[macro_inline] def memo {α : Type} (f : Fin 8 → α) : Fin 8 → α :=
   let v := Vector.ofFn f
   fun o => v[o]
 
@@ -53,7 +53,7 @@ def memo {α : Type} (f : Fin 8 → α) : Fin 8 → α :=
   funext o; simp [memo]
 
 /-- `node->oct[o] = t` -/
-def setCh {α : Type} (ch : Fin 8 → α) (o : Fin 8) (t : α) : Fin 8 → α :=
+@[macro_inline] def setCh {α : Type} (ch : Fin 8 → α) (o : Fin 8) (t : α) : Fin 8 → α :=
   memo fun i => if i = o then t else ch i
 
 /-- octant index from the three comparison bits -/
@@ -129,6 +129,11 @@ def add (ps : Nat → Pt K) : Nat → T K → Cell K → Nat → Except Err (T K
       do
         let t ← add ps f (ch o) (childCell c o) pt
         .ok (.node c g (n - 1) (setCh ch o t))
+
+/-- fresh construction of the tree of one root cell `c`: particles `0..n-1` in index order
+    (`reb_tree_add_particle_to_tree` called by `reb_simulation_add` for each new particle) -/
+def build (ps : Nat → Pt K) (fuel : Nat) (c : Cell K) (n : Nat) : Except Err (T K) :=
+  (List.range n).foldlM (fun t pt => add ps fuel t c pt) T.nil
 
 /-- particle indices stored in the leaves, in pre-order (octants 0..7) -/
 def leaves : T K → List Nat
@@ -211,6 +216,18 @@ def sweep (ps : Nat → Pt K) : T K → T K × List Nat
         | some q => (.leaf c g q, ev)
         | none => (.node c g n ch', ev)   -- unreachable when children are well formed
       else (.node c g n ch', ev)
+
+/-- re-insertion of the evicted particles (`reb_simulation_add(r, reinsertme)`), except those flagged
+    for removal (`isnan(reinsertme.y)`) -/
+def reinsert (ps : Nat → Pt K) (fuel : Nat) (c : Cell K) (t : T K) (ev : List Nat) : Except Err (T K) :=
+  ev.foldlM (fun t q => if ScalarO.le (ps q).y (ps q).y then add ps fuel t c q else .ok t) t
+
+/-- functional form of `reb_simulation_update_tree` for one root cell whose particles stay inside it:
+    sweep, then re-insert.  (The C code re-inserts during the walk and renumbers the particle array by
+    swap-with-last; see notes/C15.md.) -/
+def update (ps : Nat → Pt K) (fuel : Nat) (c : Cell K) (t : T K) : Except Err (T K) :=
+  let r := sweep ps t
+  reinsert ps fuel c r.1 r.2
 
 end generic
 end RV.Tree
